@@ -63,7 +63,7 @@ func (o Op) String() string {
 	switch o.K {
 	case "add", "trigger", "get", "barwait", "traverse", "avgadj", "proxyr", "proxyw", "isrun", "cur", "comp", "abrt", "id":
 		s += fmt.Sprint(o.B)
-	case "incr", "setcur", "refill", "ewma":
+	case "incr", "setcur", "refill", "ewma", "ewmaset":
 		s += fmt.Sprintf("%d(%d)", o.B, o.N)
 	case "setprio":
 		s += fmt.Sprintf("%d(%d)", o.B, o.N)
@@ -86,6 +86,7 @@ type Spec struct {
 	Notifier  bool
 	Delay     bool
 	FailWrite int
+	AutoOpt   bool // with Refresh "manual": WithAutoRefresh() is passed as well (manual refresh wins)
 	Bars      []BarSpec
 	Main      []Op
 	Clients   [][]Op
@@ -114,6 +115,9 @@ func (sp *Spec) String() string {
 	}
 	if sp.Width > 0 {
 		fmt.Fprintf(&b, " width=%d", sp.Width)
+	}
+	if sp.AutoOpt {
+		b.WriteString(" +autorefresh-option")
 	}
 	if sp.FailWrite > 0 {
 		fmt.Fprintf(&b, " failwrite=%d", sp.FailWrite)
@@ -544,6 +548,8 @@ func (r *runner) do(client int, op Op) {
 			bar.IncrInt64(op.N)
 		case "ewma":
 			bar.EwmaIncrInt64(op.N, time.Millisecond)
+		case "ewmaset":
+			bar.EwmaSetCurrent(op.N, time.Millisecond)
 		case "setcur":
 			bar.SetCurrent(op.N)
 		case "settotal":
@@ -673,6 +679,9 @@ func (sp *Spec) Run(x *X) {
 		opts = append(opts, mpb.WithAutoRefresh(), mpb.WithRefreshRate(100*time.Millisecond))
 	case "manual":
 		r.mrc = make(chan interface{})
+		if sp.AutoOpt {
+			opts = append(opts, mpb.WithAutoRefresh())
+		}
 		opts = append(opts, mpb.WithManualRefresh(r.mrc))
 	}
 	if sp.Q >= 0 {
